@@ -1,11 +1,14 @@
+mod apisim;
 mod dsl;
 mod exec;
 mod gen;
 mod gen_tables;
 mod refmodels;
 mod harness;
+mod prfsim;
 mod props_tri;
 mod rng;
+mod sharesim;
 mod storesim;
 mod wellformed;
 mod tri;
@@ -35,7 +38,10 @@ fn dispatch(args: &harness::Args) -> i32 {
     if let Some(path) = &args.replay {
         return match args.prop.as_str() {
             "C01" | "C02" | "C05" | "C18" | "C19" => props_tri::replay_cmd(args, path),
+            "C11" => apisim::replay_cmd(path),
             "C12" => storesim::replay_cmd(path),
+            "C14" => sharesim::replay_cmd(path),
+            "C15" => prfsim::replay_cmd(path),
             p => {
                 eprintln!("no replay for {}", p);
                 2
@@ -45,7 +51,11 @@ fn dispatch(args: &harness::Args) -> i32 {
     match args.prop.as_str() {
         "C01" => props_tri::run_c01(args),
         "C02" => props_tri::run_c02(args),
+        "C05" => props_tri::run_c05(args),
+        "C11" => apisim::run_c11(args),
         "C12" => storesim::run_c12(args),
+        "C14" => sharesim::run_c14(args),
+        "C15" => prfsim::run_c15(args),
         "C18" => props_tri::run_c18(args),
         "C19" => props_tri::run_c19(args),
         p => {
